@@ -124,4 +124,21 @@ example : producerBlock false false false (1 <<< 17) 0 ⟨1, 4, 8⟩ 100 40 41 [
 example : producerBlock false true false (1 <<< 17) 0 ⟨1, 4, 8⟩ 100 40 2 [⟨8, 10, 80⟩, ⟨0, 10, 0⟩] = .stored [11] 10 ⟨8, 1, 4⟩ := by decide
 example : producerBlock false true false (1 <<< 17) 0 ⟨1, 4, 8⟩ 100 40 2 [⟨8, 10, 80⟩, ⟨0, 11, 0⟩] = .invalid := by decide
 
+/-! ### ZSTD_mergeBlockDelimiters -/
+
+/-- **merging block delimiters keeps the parse**: the merged list contains no delimiter, holds the real sequences of the input in order with
+their offsets and match lengths, and describes the same number of bytes as the input once the literals of the trailing delimiters (the
+frame's last literals) are added back - for any arrangement of delimiters: several in a row, leading, trailing, none. -/
+theorem mergeDelims_keeps_parse (l : List Seq) :
+    (∀ s ∈ mergeDelims l, isDelim s = false) ∧
+    (mergeDelims l).map (fun s => (s.offset, s.ml)) = (l.filter (fun s => !isDelim s)).map (fun s => (s.offset, s.ml)) ∧
+    total (mergeDelims l) + mergeDropped l = total l := by
+  refine ⟨mergeGo_noDelim 0 l, mergeGo_matches 0 l, ?_⟩
+  have := mergeGo_total 0 l
+  simpa [mergeDelims, mergeDropped] using this
+
+example : mergeDelims [⟨0, 1000, 0⟩, ⟨0, 1000, 0⟩, ⟨500, 100, 50⟩, ⟨0, 1850, 0⟩] = [⟨500, 2100, 50⟩] := by decide
+example : mergeDropped [⟨0, 1000, 0⟩, ⟨0, 1000, 0⟩, ⟨500, 100, 50⟩, ⟨0, 1850, 0⟩, ⟨0, 7, 0⟩] = 1857 := by decide
+example : mergeDelims [⟨9, 1, 5⟩, ⟨0, 3, 0⟩, ⟨0, 0, 0⟩, ⟨0, 4, 0⟩, ⟨9, 0, 5⟩, ⟨0, 0, 0⟩] = [⟨9, 1, 5⟩, ⟨9, 7, 5⟩] := by decide
+
 end ZstdVerif.Props.C17
